@@ -538,7 +538,7 @@ distinct = distinct (scenario kind, object count class, key hostility, nesting, 
         "download keys are built from identifiers, so only URL-safe names are downloaded; XML-hostile characters are exercised in listings".into(),
     ];
     ctx.floor_evaluations = 50;
-    let total: u64 = ctx.tier.pick(2_400, 200_000);
+    let total: u64 = ctx.tier.pick(6_000, 200_000);
     let big = ctx.tier.pick(256 * 1024, 4 * 1024 * 1024);
     let seed = ctx.seed;
     par_cases(ctx, total, |i, obs| {
